@@ -440,6 +440,7 @@ impl Engine for E4 {
             }
         };
         sim.ctx.add("f1_quote_gaps_in_world", st.gaps);
+        sim.ctx.add("crossed_quotes_in_world", st.crossed);
         sim.ctx.add("f2_price_jumps_in_world", st.jumps);
         if path == Path::Json {
             sim.ctx.bump("runs_json_path");
